@@ -911,6 +911,14 @@ def fixed_cases():
                                   Fn("test_c", decs=[("slow", None), ("xfail", ("named", "reason", "nm"))]),
                                   Fn("test_d", decs=[("skip", ("named", "reason", "nm"))]),
                                   Fn("test_e", decs=[("skip", ("int", 3))])])], slow=True, default=[101, "silent"])
+    # duplicate function names in one file (accepted by the type checker): emit_function marks EVERY declaration
+    # of the selected name that is parameterless and not async — parameterised + parameterless, both orders, and async
+    mk([TFile("test_dup_a.incn", 1, [Fn("test_a", decs=[("parametrize", ("raw", '"v", [1, 2]'))], params=["v", "extra"]),
+                                      Fn("test_a", decs=[("slow", None)], pub=True), Fn("test_b")]),
+        TFile("test_dup_b.incn", 2, [Fn("test_c"), Fn("test_c", params=["v"]), Fn("test_d", is_async=True), Fn("test_d")]),
+        TFile("test_dup_c.incn", 3, [Fn("test_e", params=["v"]), Fn("test_e", params=["w"])])], script={"2:test_c": [101, "plain"]})
+    mk([TFile("test_dup_a.incn", 1, [Fn("test_a", decs=[("parametrize", ("raw", '"v", [1, 2]'))], params=["v", "extra"]),
+                                      Fn("test_a", decs=[("slow", None)], pub=True), Fn("test_b")])], slow=True)
     # -x stops at FAILED but not at XPASS
     mk([TFile("test_x.incn", 1, [Fn("test_a", decs=[("xfail", None)]), Fn("test_b"), Fn("test_c"), Fn("test_d")])],
        stop=True, script={"1:test_c": [1, "plain"]})
@@ -1048,6 +1056,14 @@ def run(chk):
             compiled = [e for e in m["executed_harness"] if files[e[0]].compiles()]
             last = {}
             for (fn, tn, marked, flt) in compiled:
+                same = [d for d in files[fn].decls if isinstance(d, Fn) and d.name == tn]
+                if len(same) > 1:
+                    # Model.gen_current describes the harness under the hypothesis that function names are unique in
+                    # the file (C16_emitter_unique_names; Rust itself rejects two `fn` items of one name, so with the
+                    # real cargo such a file never builds). For a duplicated name the Coq term is not used: the
+                    # expectation is emit_function's per-declaration rule (Model.gen_emit), mirrored here.
+                    marked = [tn] if any(model_runs_body(d) for d in same) else []
+                    dist["dup_name_tie"] = dist.get("dup_name_tie", 0) + 1
                 last[tn] = marked
             for tn, marked in last.items():
                 if tn in hz and sorted(set(hz[tn].get("marked", []))) != marked:
